@@ -287,6 +287,58 @@ func runC07(o *out, thorough bool, r *rng, _ []string) map[string]interface{} {
 			}
 		}
 	}
+	// the designed use of ForEach: several attributes of one type, the getter called in the callback reads the
+	// VISITED one; each result is what the getter reads from a message holding that attribute alone
+	for g := 1; g <= 5; g++ {
+		for _, t := range getterTypes[g] {
+			for rep := 0; rep < 6; rep++ {
+				var body []byte
+				var singles [][]byte
+				k := r.rangeIn(2, 4)
+				for j := 0; j < k; j++ {
+					l := r.pick([]int{0, 4, 8, 12, 20, 7})
+					val := r.bytes(l)
+					if l >= 2 && (g == 1 || g == 2) {
+						val[0], val[1] = 0, byte(1+r.intn(2))
+					}
+					if g == 4 && l >= 4 {
+						val[0], val[1], val[2], val[3] = 0, 0, byte(3+r.intn(4)), byte(r.intn(100))
+					}
+					tl := r.tlv(t, val, l)
+					if j > 0 && r.chance(1, 2) {
+						body = append(body, r.tlv(0x8030, r.bytes(5), 5)...)
+					}
+					body = append(body, tl...)
+					singles = append(singles, append(header(0x0101, len(tl), tid), tl...))
+				}
+				data := append(header(0x0101, len(body), tid), body...)
+				dm := new(stun.Message)
+				if stun.Decode(data, dm) != nil {
+					continue
+				}
+				var inside []string
+				_ = dm.ForEach(stun.AttrType(t), func(mm *stun.Message) error {
+					res, txt := getterResult(g, t, nil, mm)
+					inside = append(inside, fmt.Sprint(res, txt))
+					return nil
+				})
+				var alone []string
+				for _, sd := range singles {
+					sm := new(stun.Message)
+					if stun.Decode(sd, sm) != nil {
+						alone = append(alone, "undecodable")
+						continue
+					}
+					res, txt := getterResult(g, t, nil, sm)
+					alone = append(alone, fmt.Sprint(res, txt))
+				}
+				if fmt.Sprint(inside) != fmt.Sprint(alone) {
+					o.failFor("C07", "getter-inside-foreach-reads-another-attribute", fmt.Sprintf("701 %s - %s (getter results inside ForEach: %v; each attribute alone: %v)", fHex(data), fNums(g, t), inside, alone))
+				}
+				o.count("getters-inside-foreach")
+			}
+		}
+	}
 	// the attribute is not there at all: a message without attributes, with attributes of other types only, with
 	// the type present only AFTER the declared length (trailing bytes)
 	for g := 1; g <= 7; g++ {
